@@ -306,6 +306,21 @@ def BLOCK(K=0, horizon=6, ops=None):
     return spec(f'BLOCK[K{K}]', devs, horizon, ops, K)
 
 
+def BLOCK0(K=0, horizon=5, ops=None):
+    '''Inputs that are blocked BEFORE the first run (set right after construction): a machine, a gate and a group path.'''
+    m1 = proc('M1', ['S'], 1)
+    m1['blocked'] = True
+    g = gate('G', ['S'], 'all')
+    g['blocked'] = True
+    gp = path('gp', 'Gr', ['S'])
+    gp['blocked'] = True
+    devs = [src('S', 1), m1, proc('M2', ['S'], 2), g, proc('M3', [], 1), group('Gr', ['M3']), gp,
+            sink('K', ['M1', 'M2', 'G', 'gp'])]
+    if ops is None:
+        ops = [('block', 'M1', False), ('block', 'G', False), ('block', 'gp', False), ('block', 'M2', True)]
+    return spec(f'BLOCK0[K{K}]', devs, horizon, ops, K)
+
+
 def BUDGET(K=0, horizon=6, budget=2, ops=None):
     devs = [src('S', 1, budget), proc('M', ['S'], 1), sink('K', ['M'])]
     if ops is None:
